@@ -21,6 +21,10 @@ import (
 	"github.com/goblimey/go-ntrip/rtcm/handler"
 )
 
+// c15HandlerCopyable: copying the Handler struct gives an independent handler
+// (no maps, slices or pointers in it); otherwise branches are rebuilt by replay.
+var c15HandlerCopyable = ref.ValueCopyable(reflect.TypeOf(handler.Handler{}))
+
 func init() {
 	Props["C15"] = &harness.Prop{
 		ID:             "C15",
@@ -253,6 +257,13 @@ func c15Histories(r *ev.Run) {
 			}
 			for i := range alpha {
 				child := h // the handler is a plain struct: branching clones its state
+				if !c15HandlerCopyable {
+					// it holds maps, slices or pointers: a fresh one, brought to this state by replay
+					child = *handler.New(T0, lvl)
+					for _, k := range hist {
+						decodeDisplay(&child, alpha[k].bytes, true)
+					}
+				}
 				res, fault := decodeDisplay(&child, alpha[i].bytes, true)
 				tr++
 				var names []string
@@ -388,6 +399,26 @@ func c15Histories(r *ev.Run) {
 				}
 				for _, ai := range sub {
 					child := h
+					if !c15HandlerCopyable {
+						child = *handler.New(T0, lvl)
+						for _, nm := range hist {
+							for _, a := range alpha {
+								if a.name == nm {
+									rin := make(chan byte, len(a.bytes)+1)
+									for _, b := range a.bytes {
+										rin <- b
+									}
+									close(rin)
+									rout := make(chan handler.Message, len(a.bytes)+4)
+									func() {
+										defer func() { recover() }()
+										child.HandleMessages(rin, rout)
+									}()
+									break
+								}
+							}
+						}
+					}
 					in := make(chan byte, len(alpha[ai].bytes)+1)
 					for _, b := range alpha[ai].bytes {
 						in <- b
